@@ -55,7 +55,9 @@ def extra_checks(ctx):
     from harness.models import world as impl_world
     rng = random.Random(ctx.seed * 7907 + 2)
     n = 150 if ctx.tier == 'quick' else 3000
-    scen = list(_ForgetStream.generate(rng, n))
+    corpus = sorted((core.VERIF / 'corpus' / 'C02' / 'forget').glob('*.scn'))
+    scen = [[ln for ln in f.read_text().splitlines() if ln.strip() and not ln.startswith('#')] for f in corpus] + \
+        list(_ForgetStream.generate(rng, n))
     divs, nontriv, impl_obs, _ = core.correspondence(ctx, _ForgetStream, impl_world, scen, 'forget')
     if divs:
         ctx.broken.append({'kind': 'correspondence', 'stream': 'forget', 'count': len(divs), 'first': divs[0]})
